@@ -287,7 +287,8 @@ func vfC05Execute(t *testing.T, sc *vfC05Scenario, tr *vfh.Trace) {
 		t.Fatal(err)
 	}
 	local, remote := peer.ID("vf-local-c05"), peer.ID("vf-remote-c05")
-	sw, err := NewSwarm(local, ps, eventbus.NewBus())
+	dns := &vfDNS{addr: map[string][]ma.Multiaddr{}, host: map[string][]string{"h.example": {"/ip4/1.2.3.4"}}}
+	sw, err := NewSwarm(local, ps, eventbus.NewBus(), WithMultiaddrResolver(dns))
 	if err != nil {
 		t.Fatal(err)
 	}
@@ -320,11 +321,32 @@ func vfC05Execute(t *testing.T, sc *vfC05Scenario, tr *vfh.Trace) {
 	for _, a := range sc.Addrs {
 		all0 = append(all0, a.Addr)
 	}
+	drnd := rand.New(rand.NewSource(sc.Seed ^ 0x5eed))
+	viaDNS := sc.Template == "random" && drnd.Intn(3) == 0 // published behind /dnsaddr or /dns4 names (also twice: plain and behind a name)
 	for _, a := range sc.Addrs {
 		r.byAddr[string(a.Addr.Bytes())] = a
-		all = append(all, a.Addr)
+		pub := a.Addr
+		if viaDNS {
+			switch drnd.Intn(4) {
+			case 0:
+				dns.addr["vf.example"] = append(dns.addr["vf.example"], a.Addr)
+				pub = nil
+			case 1:
+				dns.addr["vf.example"] = append(dns.addr["vf.example"], a.Addr) // and plain as well
+			case 2:
+				if a.Addr.String() == "/ip4/1.2.3.4/tcp/4001" {
+					pub = ma.StringCast("/dns4/h.example/tcp/4001")
+				}
+			}
+		}
+		if pub != nil {
+			all = append(all, pub)
+		}
 		names = append(names, a.Name)
 		tr.Emit("addr", "a", a.Name, "relay", a.Relay, "fd", a.FD, "s", a.Addr.String(), "low", vfC05LowPrio(a.Addr, all0))
+	}
+	if len(dns.addr["vf.example"]) > 0 {
+		all = append(all, ma.StringCast("/dnsaddr/vf.example"))
 	}
 	ps.AddAddrs(remote, all, peerstore.PermanentAddrTTL)
 	tr.Emit("config", "perpeer", sc.PerPeer, "fdlimit", sc.FDLimit, "template", sc.Template)
